@@ -54,7 +54,11 @@ if suite:
     rcs, outs = sh("go test -vet=off -count=1 -timeout 25m $(go list ./... | grep -v /mutants)", wt, 3000)
     print('existing suite with change: exit', rcs, [l for l in outs.splitlines() if l.startswith('FAIL') or l.startswith('---')][:5])
 sh('git checkout -- . && git clean -fdq -e mutants', wt)
-# run the checks against /repo with the change applied
+# run the checks against /repo with the change applied (one coordinator process at a time: several of these
+# scripts may run in parallel for different worktrees, the stage that touches /repo is serialised)
+import fcntl
+_lock = open('/tmp/tools_seeded.repo.lock', 'w')
+fcntl.flock(_lock, fcntl.LOCK_EX)
 rc, o = sh('git status --porcelain', '/repo')
 if o.strip():
     sys.exit('/repo is not clean: ' + o)
@@ -68,6 +72,7 @@ try:
 finally:
     sh('git checkout -- .', '/repo')
     shutil.rmtree(f'/tmp/seeded-ev-{sid}', ignore_errors=True)
+    fcntl.flock(_lock, fcntl.LOCK_UN)
 fired = {}
 cur = None
 for l in lines:
